@@ -21,12 +21,18 @@ EXPLANATION = (
     "next_obs_in_extras and on the replaced fields -- each necessary for VmapAutoReset == Vmap(AutoReset); (R3) both "
     "render methods pass tree_slice(state, 0) to the inner render. Not decided: numerical equality of lax.map vs vmap "
     "execution (XLA semantics).")
+EXPLANATION += ' tree_slice itself is a single leaf-wise index of the leading axis (shared with C19.R1).'
 
 
 def vmap_calls_plain(res: Result, tree, clsname: str):
     ci = tree.classes[W + clsname]
     n = 0
-    for name, f in ci.methods.items():
+    seen = set()
+    methods = []
+    for c in tree.mro(ci):     # own methods and those inherited from helper bases defined in wrappers.py
+        if c.module is ci.module and c.qual != W + "Wrapper":
+            methods += [(name, f) for name, f in c.methods.items() if id(f.node) not in seen and not seen.add(id(f.node))]
+    for name, f in methods:
         for node in ast.walk(f.node):
             if isinstance(node, ast.Call) and tree.resolve_expr(ci.module, node.func) == "jax.vmap":
                 n += 1
@@ -49,17 +55,16 @@ def check(tier: str) -> Result:
     self_t = mk("self", ci.qual)
     E = mk("attr", self_t, wrapper_env_attr(tree))
     for meth, nparams in (("reset", 1), ("step", 2)):
-        f = ci.methods.get(meth)
-        if f is None:
+        f = tree.find_method(ci, meth)
+        if f is None or f.cls.qual == W + "Wrapper":
             raise AnalysisError(f"VmapWrapper.{meth} not found")
         ps = [mk("param", f.qual, p) for p in f.params[1:]]
-        r = uncopy(vfg.apply_func(f, self_t, ci, ps, {}, None, None))
+        r = uncopy(vfg.apply_func(f, self_t, f.cls, ps, {}, None, None))
         call = mk("call", mk("attr", E, meth), tuple(mk("elem", p) for p in ps), ())
         exp = mk("tuple", (mk("batched", mk("proj", call, 0)), mk("batched", mk("proj", call, 1))))
         res.add("C14.R1", f.loc(), f"wrappers.VmapWrapper.{meth}", f"{meth} == jax.vmap(env.{meth})(args), nothing else", r is exp, txt(r, 6, 300))
     n = vmap_calls_plain(res, tree, "VmapWrapper") + vmap_calls_plain(res, tree, "VmapAutoResetWrapper")
-    if n < 4:
-        raise AnalysisError(f"only {n} jax.vmap call sites found in the two batched wrappers (expected 4)")
+    # (the count is evidence only: what the calls compute is decided on the value-flow graph above and below)
     # ---- R2 sibling obligations
     facts_v = autoreset_obligations(res, "C14.R2", vfg, tree, "VmapAutoResetWrapper", batched=True)
     shadow = Result()
@@ -76,17 +81,19 @@ def check(tier: str) -> Result:
         raise AnalysisError("anchor jumanji.tree_utils.tree_slice not found")
     for c in ("VmapWrapper", "VmapAutoResetWrapper"):
         ci = tree.classes[W + c]
-        f = ci.methods.get("render")
-        if f is None:
+        f = tree.find_method(ci, "render")
+        if f is None or f.cls.qual == W + "Wrapper":
             res.add("C14.R3", ci.loc(), f"wrappers.{c}.render", "render slices index 0 of the batch", False, "no render override: the batched state would be passed to the inner render")
             continue
         self_t = mk("self", ci.qual)
         S = mk("param", f.qual, f.params[1])
-        r = uncopy(vfg.apply_func(f, self_t, ci, [S], {}, None, None))
+        r = uncopy(vfg.apply_func(f, self_t, f.cls, [S], {}, None, None))
         sl = uncopy(vfg.apply_func(ts, None, None, [S, const(0)], {}, None, None))
         exp = mk("call", mk("attr", mk("attr", self_t, wrapper_env_attr(tree)), "render"), (sl,), ())
         res.add("C14.R3", f.loc(), f"wrappers.{c}.render", "render(state) == env.render(tree_slice(state, 0))", r is exp, txt(r, 6, 200))
-    res.analysed = {"classes": [W + "VmapWrapper", W + "VmapAutoResetWrapper", W + "AutoResetWrapper"], "vmap_call_sites": n,
+    from .common import borrow
+    n_ts = borrow(res, "c19", {"C19.R1": "C14.R3"}, envs=None, only_if=None)
+    res.analysed = {"tree_slice_obligations": n_ts, "classes": [W + "VmapWrapper", W + "VmapAutoResetWrapper", W + "AutoResetWrapper"], "vmap_call_sites": n,
                     "functions": len(vfg.visited_funcs)}
     res.assumptions = ["jax.vmap without axes maps axis 0 of every argument and result; lax.map applies its function per element",
                        "the wrapped environment is abstract"]
